@@ -569,7 +569,7 @@ def rcEx : Record := ⟨.generation, some (exQ "g"),
   [(formalQ "entity", [.qn (exQ "e")]), (formalQ "activity", [.qn (exQ "a")]),
    (exQ "k", [.int 1, .lit "abc" (some (exQ "T")) none]), (provQ "label", [.lit "étiquette" (some (provQ "InternationalizedString")) (some "fr")])]⟩
 
-example : Stored rcEx := by
+theorem rcEx_stored : Stored rcEx := by
   refine ⟨?_, ?_, by decide +kernel⟩
   · intro x hx
     have hx' : x ∈ [(formalQ "entity", Value.qn (exQ "e")), (formalQ "activity", .qn (exQ "a")), (exQ "k", .int 1),
